@@ -435,6 +435,30 @@ impl Property for C09 {
         let mut w = WorldA::build(ctx, gen, net, false);
         let mut o = Oracle { shares: Vec::new(), lines: Vec::new() };
         w.run(ctx, &mut o)?;
+        // GENUINE shares (valid encoding, threshold met, MAC verifies) of sharings whose message is not
+        // the 32 bytes an honest STAR client shares: the length of the recovered message is chosen by
+        // whoever dealt the shares
+        {
+            let ml = *ctx.ch.pick(&[0usize, 1, 5, 15, 16, 31, 33, 100]);
+            let rl = *ctx.ch.pick(&[0usize, 1, 32]);
+            let t = 1 + ctx.ch.draw(2) as u32;
+            let (m, r) = (ctx.ch.bytes(ml), ctx.ch.bytes(rl));
+            let mut lines: Vec<String> = Vec::new();
+            let mut raw = Vec::new();
+            for d in 0..t + 1 {
+                if let Ok(sh) = ctx.os.with_node(900 + d as u64, || adss::Commune::new(t, m.clone(), r.clone(), None).share()) {
+                    raw = sh.to_bytes();
+                    lines.push(BASE64_STANDARD.encode(&raw));
+                }
+            }
+            let joined = lines.join("\n");
+            for epoch in ["", "t"] {
+                let r = rx!(ctx, "star_wasm::group_shares", &raw, star_wasm::group_shares(&joined, epoch));
+                if r.is_some() {
+                    ctx.stats.probe("group_shares_on_genuine_shares_of_odd_length_messages");
+                }
+            }
+        }
         // large inputs (beyond every documented limit) to every byte-level receiver
         if ctx.ch.chance(1, 4) {
             let n = *ctx.ch.pick(&[16_384usize, 16_385, 20_000, 70_000]);
